@@ -449,6 +449,67 @@ def gen_random(seed, i, safe=True):
     steps += [{"op": "settle", "n": 70}] + (guard_closeall(steps) if safe else []) + [{"op": "closeall"}, {"op": "drain", "n": 320}]
     return {"name": f"rnd-{seed}-{i}" + ("" if safe else "-u"), "steps": steps, "complete": True}
 
+def gen_idle(seed, i):
+    """Reply-stream alignment on real protocol objects (C03 on engine W; also part of C18): connections that go IDLE past the
+    expiry of their own directly granted holds (1..6 s), or while a queued request of theirs times out, and then issue
+    more commands; five and more expiries in a row before the next command; binary and text.  Every command must get
+    exactly one reply and it must be the reply to that command; notices (EXPRIED) never reach a text connection."""
+    rng = random.Random(f"idle/{seed}/{i}")
+    steps = [{"op": "conn", "c": 9, "kind": "bin"}, {"op": "lock", "c": 9, "key": 90, "lid": 990, "to": 0, "ex": 250, "rc": 0}]
+    nconn = rng.randint(1, 3)
+    kinds = {}
+    for c in range(1, nconn + 1):
+        kinds[c] = ("text", "bin")[(i + c) % 2] if rng.random() < 0.8 else rng.choice(["text", "bin"])
+        steps.append({"op": "conn", "c": c, "kind": kinds[c]})
+        if kinds[c] == "bin" and rng.random() < 0.3:
+            steps.append({"op": "init", "c": c, "cid": c})
+    n = [0]
+    def key(c):
+        n[0] += 1
+        return 100 * c + n[0], 5000 + 100 * c + n[0]
+    live = {c: [] for c in kinds}
+    # usually 1..3 rounds of (take holds / queue, go idle, more commands); sometimes 5..7 short rounds in a row
+    rounds = rng.randint(5, 7) if rng.random() < 0.25 else rng.randint(1, 3)
+    for _ in range(rounds):
+        longest = 0
+        for c in rng.sample(sorted(kinds), len(kinds)):
+            mode = rng.choice(["expire", "expire", "many", "queued", "mixed"]) if rounds <= 3 else rng.choice(["expire", "expire", "queued"])
+            if mode in ("expire", "mixed"):
+                for _ in range(rng.randint(1, 6) if rounds <= 3 else 1):
+                    k, l = key(c)
+                    ex = rng.randint(1, 6)
+                    longest = max(longest, ex)
+                    steps.append({"op": "lock", "c": c, "key": k, "lid": l, "to": 0, "ex": ex, "rc": 0, "batch": rng.random() < 0.2})
+                    live[c].append((k, l))
+            if mode == "many":
+                for _ in range(rng.randint(5, 8)):      # five and more expiries in a row before the next command
+                    k, l = key(c)
+                    ex = rng.randint(1, 3)
+                    longest = max(longest, ex)
+                    steps.append({"op": "lock", "c": c, "key": k, "lid": l, "to": 0, "ex": ex, "rc": 0})
+                    live[c].append((k, l))
+            if mode in ("queued", "mixed"):
+                k, l = key(c)
+                to = rng.randint(2, 5)
+                longest = max(longest, to)
+                steps.append({"op": "lock", "c": c, "key": 90, "lid": l, "to": to, "ex": 20, "rc": 0})   # times out while the connection is idle
+        idle = rng.randint(2, 8) + (longest if rng.random() < 0.6 else 0)
+        steps.append({"op": "tick", "n": idle})
+        if rng.random() < 0.3:
+            steps.append({"op": "snap"})
+        for c in rng.sample(sorted(kinds), len(kinds)):
+            for _ in range(rng.randint(1, 6) if rounds <= 3 else rng.randint(0, 1)):
+                r = rng.random()
+                if r < 0.5 or not live[c]:
+                    k, l = key(c)
+                    steps.append({"op": "lock", "c": c, "key": k, "lid": l, "to": 0, "ex": rng.choice([2, 30, 60]), "rc": 0})
+                    live[c].append((k, l))
+                else:
+                    k, l = live[c].pop(rng.randrange(len(live[c])))       # held, or expired meanwhile (UNLOCK_ERROR): one reply either way
+                    steps.append({"op": "unlock", "c": c, "key": k, "lid": l, "rc": 0})
+    steps += [{"op": "settle", "n": 12}, {"op": "closeall"}, {"op": "drain", "n": 70}]
+    return {"name": f"idle-{seed}-{i}", "steps": steps, "complete": True}
+
 def directed():
     """Hand-shaped regression histories (each is also reachable by the generators), plus scenarios/sess_directed.json."""
     import os
